@@ -1317,6 +1317,38 @@ fn main() {
                 }
             }
         }
+        // a sketch built from a caller's register Vec (with_registers_and_hash) - the Vec may carry spare capacity - must clear to a
+        // fresh sketch as well: 2^b registers, all zero, and the same reaction to further adds
+        for b in [4usize, 7, 10] {
+            for spare in [0usize, 1, 40, 1 << b] {
+                cases += 1;
+                let m = 1usize << b;
+                let r = mccore::panics::catch(|| {
+                    let mut regs: Vec<u8> = Vec::with_capacity(m + spare);
+                    regs.resize(m, 3);
+                    let mut a = pdatastructs::hyperloglog::HyperLogLog::<Key, checks::TableHasher>::with_registers_and_hash(b, regs, checks::TableHasher::identity());
+                    a.clear();
+                    let mut f = checks::hll::fresh(b);
+                    if a.registers() != f.registers() || a.count() != f.count() || !a.is_empty() {
+                        return Some(format!("after clear(): {} registers (fresh: {}), count {} (fresh 0), is_empty {}", a.registers().len(), f.registers().len(), a.count(), a.is_empty()));
+                    }
+                    for h in [0u64, 5, u64::MAX, 1 << 40, (m as u64 - 1) | (1 << 63)] {
+                        a.add_hashed(h);
+                        f.add_hashed(h);
+                        if a.registers() != f.registers() || a.count() != f.count() {
+                            return Some(format!("after clear() and add_hashed({:#x}) the cleared sketch differs from a fresh one", h));
+                        }
+                    }
+                    None
+                });
+                let bad = match r { Err(p) => Some(format!("panicked: {}", p)), Ok(x) => x };
+                if let Some(msg) = bad {
+                    run.violation(Viol { property: "C19".into(), signature: "HyperLogLog clear() != fresh".into(), message: format!("HyperLogLog b={} built by with_registers_and_hash from a Vec of 2^b registers (all 3) with spare capacity {}: {}", b, spare, msg),
+                        replay: json!({"structure": "HyperLogLog", "b": b, "constructor": "with_registers_and_hash", "registers": "2^b x 3", "spare_capacity_of_the_vec": spare, "then": "clear(), add_hashed x 5"}) });
+                    break;
+                }
+            }
+        }
         run.ev.set("hll_full_register_clear_cases", json!(cases));
     }
     run.finish();
